@@ -107,13 +107,13 @@ func substitute(src []byte, toks []tok, subst map[int]string) []byte {
 }
 
 type c10Case struct {
-	Name   string
-	Class  string
-	Desc   string
-	Files  map[string]string
-	Flags  []string
-	Args   []string // package arguments (default ./p)
-	Modes  map[string]os.FileMode
+	Name  string
+	Class string
+	Desc  string
+	Files map[string]string
+	Flags []string
+	Args  []string // package arguments (default ./p)
+	Modes map[string]os.FileMode
 }
 
 func checkC10(c *Ctx) {
@@ -123,10 +123,10 @@ func checkC10(c *Ctx) {
 	c.Run.Floor = 20
 	cases := c10Cases(c)
 	type res struct {
-		g              grun.Result
-		before, after  map[string]grun.FileState
-		dir            string
-		orig           map[string]string
+		g             grun.Result
+		before, after map[string]grun.FileState
+		dir           string
+		orig          map[string]string
 	}
 	outs := make([]res, len(cases))
 	parallel(len(cases), 12, func(i int) {
